@@ -17,6 +17,58 @@ INPUTS = [("a", "bit"), ("b", "bit"), ("x", "u2"), ("i", "u2")]
 SIGS = [("q0", "bit", False), ("q1", "bit", True), ("r0", "u2", False), ("w0", "bv4", False)]   # name, type, pushed
 VARS = [("v0", "u2"), ("vb", "bit")]
 WIDTH = {"bit": 1, "u2": 2, "bv4": 4, "bool": 1}
+PYTY = {"bit": "Bit", "u2": "Unsigned[2]", "bv4": "BitVector[4]"}
+
+
+class Universe:
+    """declarations of the fixed objects; `first_in` = index of input `a` in the design's input list (C04 puts rst first)"""
+
+    def __init__(self, first_in=0, sig_defaults=(0, 0, 0, 0), sig_hasdef=(True, True, True, True),
+                 sig_noreset=(False, False, False, False), var_defaults=(0, 0), var_noreset=(False, False)):
+        self.first_in = first_in
+        self.sig_defaults = sig_defaults
+        self.sig_hasdef = sig_hasdef
+        self.sig_noreset = sig_noreset
+        self.var_defaults = var_defaults
+        self.var_noreset = var_noreset
+
+    def lit(self, ty, v):
+        if ty == "bit":
+            return "True" if v else "False"
+        if ty == "u2":
+            return f"Unsigned[2]({v})"
+        return f'BitVector[4]("{v:04b}")'
+
+    def port_decls(self):
+        out = []
+        for k, (n, t, _) in enumerate(SIGS):
+            args = [PYTY[t]]
+            if self.sig_hasdef[k]:
+                args.append("default=" + self.lit(t, self.sig_defaults[k]))
+            if self.sig_noreset[k]:
+                args.append("noreset=True")
+            out.append(f"    {n} = Port.output({', '.join(args)})")
+        return out
+
+    def var_decls(self):
+        out = []
+        for k, (n, t) in enumerate(VARS):
+            extra = ", noreset=True" if self.var_noreset[k] else ""
+            out.append(f"        {n} = Variable[{PYTY[t]}]({self.lit(t, self.var_defaults[k])}, name='{n}'{extra})")
+        return out
+
+    def sdecls(self):
+        tys = {"bit": "SBit", "u2": "SUns 2%N", "bv4": "SSlv 4%N"}
+        return "[" + "; ".join(
+            "{| s_ty := %s; s_push := %s; s_def := %d%%Z |}" % (tys[t], "true" if p else "false", self.sig_defaults[k])
+            for k, (n, t, p) in enumerate(SIGS)) + "]"
+
+    def init_state(self):
+        vals = [self.sig_defaults[k] if self.sig_hasdef[k] else 0 for k in range(len(SIGS))] + list(self.var_defaults)
+        return "[" + "; ".join(f"{v}%Z" for v in vals) + "]"
+
+
+DEFAULT_UNI = Universe()
 
 
 # expressions are tuples (kind, type, python text, coq text)
@@ -25,8 +77,9 @@ def mk(ty, py, cq):
 
 
 class Gen:
-    def __init__(self, rng, mode):
+    def __init__(self, rng, mode, uni=None):
         self.rng = rng
+        self.uni = uni or DEFAULT_UNI
         self.mode = mode            # clocked | comb | conc
         self.helpers = []
         self.budget = 0
@@ -38,7 +91,7 @@ class Gen:
         opts = []
         for k, (n, t) in enumerate(INPUTS):
             if t == ty:
-                opts.append(mk(ty, f"self.{n}", f"(XIn {k})"))
+                opts.append(mk(ty, f"self.{n}", f"(XIn {k + self.uni.first_in})"))
         if self.mode == "clocked":
             for k, (n, t, _) in enumerate(SIGS):
                 if t == ty:
@@ -67,7 +120,7 @@ class Gen:
             return mk("bit", f"({a[1]} {op} {b[1]})", f"({cq} {a[2]} {b[2]})")
         if r < 0.9:
             k = self.rng.randrange(2)
-            return mk("bit", f"self.x[{k}]", f"(XBit (XIn 2) (XConst {k}%Z))")
+            return mk("bit", f"self.x[{k}]", f"(XBit (XIn {2 + self.uni.first_in}) (XConst {k}%Z))")
         if self.mode == "clocked":
             if self.rng.random() < 0.5:
                 k = self.rng.randrange(4)
@@ -240,6 +293,15 @@ class Gen:
                 res = f"(RIf (XEq {u[2]} (XConst {k}%Z)) (RAssign (TSig 2) (XAdd 2%N {e[2]} (XConst {k}%Z))) {res})"
             return lines, res
         # helper with returns in branches
+        if self.rng.random() < 0.5:
+            h = self.rng.choice(["h_for", "h_forelse"])
+            u, p, q = self.u2(1), self.u2(1), self.u2(1)
+            if h not in self.helpers:
+                self.helpers.append(h)
+            res = q[2]
+            for k in (2, 1, 0):
+                res = f"(XIte (XEq {u[2]} (XConst {k}%Z)) (XAdd 2%N {p[2]} (XConst {k}%Z)) {res})"
+            return [ind + f"self.r0 <<= {h}({u[1]}, {p[1]}, {q[1]})"], f"(RAssign (TSig 2) {res})"
         c = self.cond()
         p, q = self.u2(1), self.u2(1)
         if "h_ret" not in self.helpers:
@@ -253,7 +315,8 @@ class Gen:
         lines, stms = [], []
         if self.mode == "comb":
             # a combinational process must not keep state in variables: assign them first
-            for l, s in ([f"v0 @= self.x"], "(RAssign (TVar 0) (XIn 2))"), ([f"vb @= self.a"], "(RAssign (TVar 1) (XIn 0))"):
+            fi = self.uni.first_in
+            for l, s in ([f"v0 @= self.x"], f"(RAssign (TVar 0) (XIn {2 + fi}))"), ([f"vb @= self.a"], f"(RAssign (TVar 1) (XIn {fi}))"):
                 lines += ["            " + l[0]]
                 stms.append(s)
             self.assigned_vars = {"v0", "vb"}
@@ -276,10 +339,15 @@ def seq(stms):
 
 HELPERS = {
     "h_ret": ["        def h_ret(c, p, q):", "            if c:", "                return p", "            return q"],
+    "h_for": ["        def h_for(u, p, q):", "            for k in range(3):", "                if u == k:",
+              "                    return p + k", "            return q"],
+    "h_forelse": ["        def h_forelse(u, p, q):", "            for k in range(3):", "                if u == k:",
+                  "                    return p + k", "            else:", "                return q"],
 }
 
 
-def to_source(mode, lines, helpers, always=None):
+def to_source(mode, lines, helpers, uni=None, ctx_args=None, extra_ports=(), pre_ctx=()):
+    uni = uni or DEFAULT_UNI
     src = [
         "import cohdl",
         "from cohdl import Bit, BitVector, Port, Unsigned, Variable, Null, Signal",
@@ -289,18 +357,17 @@ def to_source(mode, lines, helpers, always=None):
     ]
     if mode == "clocked":
         src.append("    clk = Port.input(Bit)")
+    src += list(extra_ports)
     src += [
         "    a = Port.input(Bit)", "    b = Port.input(Bit)", "    x = Port.input(Unsigned[2])", "    i = Port.input(Unsigned[2])",
-        "    q0 = Port.output(Bit, default=False)", "    q1 = Port.output(Bit, default=False)",
-        "    r0 = Port.output(Unsigned[2], default=Null)", "    w0 = Port.output(BitVector[4], default=Null)",
-        "", "    def architecture(self):",
-    ]
+    ] + uni.port_decls() + ["", "    def architecture(self):"]
     if mode != "conc":
-        src += ["        v0 = Variable[Unsigned[2]](Null, name='v0')", "        vb = Variable[Bit](False, name='vb')"]
+        src += uni.var_decls()
+    src += list(pre_ctx)
     for h in helpers:
         src += HELPERS[h]
     if mode == "clocked":
-        src += ["        @std.sequential(std.Clock(self.clk))", "        def proc():", "            nonlocal v0, vb"]
+        src += [f"        @std.sequential({ctx_args or 'std.Clock(self.clk)'})", "        def proc():", "            nonlocal v0, vb"]
     elif mode == "comb":
         src += ["        @std.sequential", "        def proc():", "            nonlocal v0, vb"]
     else:
@@ -331,6 +398,10 @@ CORPUS = [
      "(RIf (XEq (XIn 2) (XConst 1%Z)) (RAssign (TSig 0) (XIn 0)) (RIf (XEq (XIn 2) (XConst 3%Z)) (RAssign (TSig 0) (XIn 1)) RSkip))"),
     ("comb", ["v0 @= self.x", "vb @= self.a", "self.r0 <<= v0 + self.i", "if vb:", "    self.q0 <<= self.b", "else:", "    self.q0 <<= False"],
      "(RSeq (RAssign (TVar 0) (XIn 2)) (RSeq (RAssign (TVar 1) (XIn 0)) (RSeq (RAssign (TSig 2) (XAdd 2%N (XVar 0) (XIn 3))) (RIf (XVar 1) (RAssign (TSig 0) (XIn 1)) (RAssign (TSig 0) (XConst 0%Z))))))"),
+    ("clocked+h_for", ["self.r0 <<= h_for(self.x, self.i, self.r0)"],
+     "(RAssign (TSig 2) (XIte (XEq (XIn 2) (XConst 0%Z)) (XAdd 2%N (XIn 3) (XConst 0%Z)) (XIte (XEq (XIn 2) (XConst 1%Z)) (XAdd 2%N (XIn 3) (XConst 1%Z)) (XIte (XEq (XIn 2) (XConst 2%Z)) (XAdd 2%N (XIn 3) (XConst 2%Z)) (XSig 2)))))"),
+    ("clocked+h_forelse", ["self.r0 <<= h_forelse(self.x, self.i, self.r0)"],
+     "(RAssign (TSig 2) (XIte (XEq (XIn 2) (XConst 0%Z)) (XAdd 2%N (XIn 3) (XConst 0%Z)) (XIte (XEq (XIn 2) (XConst 1%Z)) (XAdd 2%N (XIn 3) (XConst 1%Z)) (XIte (XEq (XIn 2) (XConst 2%Z)) (XAdd 2%N (XIn 3) (XConst 2%Z)) (XSig 2)))))"),
     ("conc", ["self.q0 <<= self.a & self.b", "self.r0 <<= self.x + self.i", "self.w0 <<= self.i @ self.x"],
      "(RSeq (RAssign (TSig 0) (XAnd (XIn 0) (XIn 1))) (RSeq (RAssign (TSig 2) (XAdd 2%N (XIn 2) (XIn 3))) (RAssign (TSig 3) (XConcat 2%N (XIn 3) (XIn 2)))))"),
 ]
@@ -344,7 +415,8 @@ def run(ck: common.Check, replay=None):
     else:
         for k, (mode, body, ref) in enumerate(CORPUS):
             lines = ["            " + l for l in body]
-            items.append((f"corpus{k:02d}", mode, to_source(mode, lines, []), ref))
+            mode, _, hs = mode.partition("+")
+            items.append((f"corpus{k:02d}", mode, to_source(mode, lines, [hs] if hs else []), ref))
         n = 120 if ck.tier == "quick" else 1500
         for k in range(n):
             mode = ck.rng.choice(["clocked"] * 6 + ["comb"] * 2 + ["conc"] * 2)
@@ -359,9 +431,9 @@ def run(ck: common.Check, replay=None):
             ck.hist("rejected", r["error"][:70])
             ck.evaluations += 1
             continue
-        init = "[0%Z; 0%Z; 0%Z; 0%Z; 0%Z; 0%Z]"
+        init = DEFAULT_UNI.init_state()
         c = X.Case(name, r["vhdl"], step=f"seq_step sdecls body", init=init,
-                   defs=f"Definition sdecls := {SDECLS}.\nDefinition body : stm := {ref}.",
+                   defs=f"Definition sdecls := {DEFAULT_UNI.sdecls()}.\nDefinition body : stm := {ref}.",
                    imports="From Cohdl Require Import Models.SeqRef.", clk="clk" if mode == "clocked" else None,
                    meta={"mode": mode, "source": src, "ref": ref})
         cases.append(c)
